@@ -110,6 +110,10 @@ def main():
     r_ = h_lru.faulty_inner({}, {})
     if r_.get("reproduced"):
         violations.append({"what": "[faulty wrapped store] " + r_["detail"]})
+    r_ = h_lru.retention_bound({}, {})
+    evals += int(r_["detail"].split()[0]) if not r_.get("reproduced") else 1
+    if r_.get("reproduced"):
+        violations.append({"what": "[retained objects, weak references] " + r_["detail"]})
     evals += 4 * 4 * 27
     r_ = h_lru.lockstep_readback({}, {})
     if r_.get("reproduced"):
@@ -146,7 +150,7 @@ def main():
     finally:
         shutil.rmtree(tmp, ignore_errors=True)
     print(json.dumps({
-        "scope": "all operation sequences of length <= %d over 2 keys x 3 operations x 4 capacities (MemoryStore), length 3 x 2 capacities (LocalFileStore); all sequences of length <= %d over 9 blob / path operations incl. a second writer on the wrapped store (MemoryStore, 2 capacities) and of length 3 on LocalFileStore; 9 histories with a wrapped store whose store_blob / sync_paths / fetch_blob fails once; 432 histories (4 capacities x 4 values x 27 orders of store / fetch / has) on LocalFileStore with values whose stored form is not the object itself (bytearray, list mutated after the store)" % (L, LP),
+        "scope": "all operation sequences of length <= %d over 2 keys x 3 operations x 4 capacities (MemoryStore), length 3 x 2 capacities (LocalFileStore); all sequences of length <= %d over 9 blob / path operations incl. a second writer on the wrapped store (MemoryStore, 2 capacities) and of length 3 on LocalFileStore; 9 histories with a wrapped store whose store_blob / sync_paths / fetch_blob fails once; 432 histories (4 capacities x 4 values x 27 orders of store / fetch / has) on LocalFileStore with values whose stored form is not the object itself (bytearray, list mutated after the store); all sequences of <= 5 fetch / has operations over capacity + 2 keys, capacities 1..3, on LocalFileStore: live fetched objects (weak references) never exceed the bound" % (L, LP),
         "evaluations": evals, "distinct_nontrivial": distinct, "exhaustive": True,
         "rule": "one case per (capacity, operation sequence); distinct = sequences of maximal length",
         "samples": samples, "violations": violations, "known_hits": [],
